@@ -287,6 +287,9 @@ func xGenSchema(r *Rng) *xSchema {
 			pool(fmt.Sprintf("nlo%d", i), xNonNull(xList(xNonNull(xNamed(o)))))
 		}
 	}
+	// nested lists over objects and non-null elements (paths with several indices)
+	pool("llo0", xList(xList(xNamed(objs[0]))))
+	pool("llni", xList(xList(xNonNull(xNamed("Int")))))
 	pool("if0", xNamed("I0"))
 	pool("lif0", xList(xNamed("I0")))
 	pool("u0", xNamed("U0"))
